@@ -14,6 +14,7 @@ package vrt
 import (
 	"fmt"
 	"os"
+	"os/signal"
 	"strings"
 	"syscall"
 	"unsafe"
@@ -93,4 +94,29 @@ func (c *Ctx) CrashWindow(maxSteps int, f func()) bool {
 	}
 	c.Skipped = "this crash point is not reproducible with the native mechanisms (see vrt/crash.go)"
 	panic(stop{})
+}
+
+// WriteFault runs f; when the value table says so, the first write of more
+// than 16 bytes inside it gets 16 bytes out and fails (a file size limit with
+// SIGXFSZ ignored: the write returns EFBIG, the process lives). Returns
+// whether the fault was requested.
+func (c *Ctx) WriteFault(f func()) bool {
+	on := c.next("write-fault", "bool", 0) != 0
+	if !on {
+		f()
+		return false
+	}
+	signal.Ignore(syscall.SIGXFSZ)
+	var old syscall.Rlimit
+	syscall.Getrlimit(syscall.RLIMIT_FSIZE, &old)
+	lim := syscall.Rlimit{Cur: 16, Max: old.Max}
+	syscall.Setrlimit(syscall.RLIMIT_FSIZE, &lim)
+	func() {
+		defer func() {
+			syscall.Setrlimit(syscall.RLIMIT_FSIZE, &old)
+			signal.Reset(syscall.SIGXFSZ)
+		}()
+		f()
+	}()
+	return true
 }
